@@ -193,6 +193,23 @@ int main(void)
             }
             printf("%" PRIu64 "\n", h);
         }
+        else if (!strcmp(c, "f16pb") && nt == 4)
+        {   /* range: start count path -> the packed values as raw little-endian uint16 in a file */
+            uint32_t a = (uint32_t) strtoul(tok[1], 0, 10); uint64_t n = strtoull(tok[2], 0, 10);
+            FILE* f = fopen(tok[3], "wb");
+            if (f == NULL) { puts("ERR open"); continue; }
+            static uint16_t chunk[1 << 16];
+            uint64_t done = 0;
+            while (done < n)
+            {
+                size_t m = (size_t)((n - done) < (1U << 16) ? (n - done) : (1U << 16));
+                for (size_t i = 0; i < m; i++, a++) { union { uint32_t u; float f; } x; x.u = a; chunk[i] = nunavutFloat16Pack(x.f); }
+                fwrite(chunk, sizeof(uint16_t), m, f);
+                done += m;
+            }
+            fclose(f);
+            puts("ok");
+        }
         else if (!strcmp(c, "f16pl") && nt == 4)
         {   /* range: start count step -> the packed values, space separated, on one line */
             uint32_t a = (uint32_t) strtoul(tok[1], 0, 10); uint64_t n = strtoull(tok[2], 0, 10); uint32_t st = (uint32_t) strtoul(tok[3], 0, 10);
